@@ -40,7 +40,7 @@ theorem claim : ∀ (pt : PT), supported pt = true → Claim pt
   | .atomicMulti id subs dur meas cons, h => by
       simp only [supported, Bool.and_eq_true, Bool.not_eq_true'] at h
       exact claim_atomicMulti id subs dur meas cons
-        (fun p hp => ⟨claimAll subs h.1 p hp, invClaimAll subs h.1 p hp⟩) h.2
+        (fun p hp => ⟨claimAll subs h.1 p hp, invClaimAll subs h.1 p hp⟩) h.2.1
   | .arith id body op scalar ptIsLhs, h => by
       simp only [supported, Bool.and_eq_true, Bool.not_eq_true'] at h
       refine claim_arith id body op scalar ptIsLhs (claim body h.1.1) (invClaim body h.1.1) (presClaim body h.1.1) ?_
